@@ -66,8 +66,19 @@ pub fn relayout(r: &mut Rng, text: &str) -> String {
                 if ch == '"' {
                     in_string = true;
                 }
+                // optional gaps where the house layout has none: around punctuation inside stanza bodies
+                // (`@x . y`, `( f a )`, `[ 1 , 2 ]`, `x = 1`); never inside `->` / `=>` or header lines
+                let body_line = line.starts_with(' ');
+                let punct = body_line && matches!(ch, '.' | ',' | '(' | ')' | '[' | ']');
+                if punct && !prev_gap && r.chance(1, 6) {
+                    out.push_str(*r.pick(GAPS));
+                }
                 out.push(ch);
                 prev_gap = false;
+                if punct && r.chance(1, 6) {
+                    out.push_str(*r.pick(GAPS));
+                    prev_gap = true;
+                }
             }
         }
     }
